@@ -240,7 +240,9 @@ class Tensor:
                         index = cffi_indexes[i_level][1][next_position]
                         yield from recurse(i_level + 1, (*prefix, index), next_position)
             else:
-                coordinate = tuple(prefix[mode_ordering[i]] for i in range(order))
+                # Level i stores dimension mode_ordering[i], so dimension i is found at the level whose
+                # ordering entry is i (the inverse permutation)
+                coordinate = tuple(prefix[mode_ordering.index(i)] for i in range(order))
                 yield coordinate, cffi_values[position]
 
         yield from recurse(0, (), 0)
